@@ -77,6 +77,19 @@ pub fn random_history(rng: &mut Rng, maxops: usize) -> Vec<ClaimOp> {
         if !keys.is_empty() && rng.chance(1, 5) {
             let k = if rng.chance(4, 5) { rng.pick(&keys).clone() } else { custom_key(rng) };
             ops.push(ClaimOp::Remove(k));
+        } else if rng.chance(1, 8) {
+            // extend_claims: a map of plain values, stored under their keys as they are (may overwrite earlier claims)
+            let mut kvs = Vec::new();
+            for _ in 0..(1 + rng.below(3)) {
+                let k = if !keys.is_empty() && rng.chance(1, 3) { rng.pick(&keys).clone() } else { custom_key(rng) };
+                if kvs.iter().any(|(kk, _): &(String, Value)| *kk == k) {
+                    continue;
+                }
+                let d = rng.below(4);
+                kvs.push((k.clone(), gens::json_tree(rng, d)));
+                keys.push(k);
+            }
+            ops.push(ClaimOp::Extend(kvs));
         } else {
             let c = random_claim(rng, &keys);
             keys.push(c.key().to_string());
@@ -171,6 +184,9 @@ fn c14_eval(c: &C14Case, r: &mut Report) {
             let shapes: Vec<String> = want.values().take(4).map(|v| shape(v, 2)).collect();
             r.distinct(format!("{}|ops{}|sets{}|members{}|{}", tag, c.ops.len(), sets, want.len(), shapes.join(",")));
             for op in &c.ops {
+                if let ClaimOp::Extend(_) = op {
+                    r.count("claims set: extend_claims map");
+                }
                 if let ClaimOp::Set(cl) = op {
                     r.count(match cl {
                         Claim::Custom(..) => "claims set: custom JSON value",
@@ -180,7 +196,7 @@ fn c14_eval(c: &C14Case, r: &mut Report) {
                 }
             }
             if r.samples.len() < 8 && r.evaluations % 211 == 3 {
-                r.sample(json!({"protocol": tag, "history": c.ops.iter().map(|o| match o { ClaimOp::Set(cl) => format!("set {:?}", cl.key()), ClaimOp::Remove(k) => format!("remove {:?}", k) }).collect::<Vec<_>>(), "parsed_equals_model": want}));
+                r.sample(json!({"protocol": tag, "history": c.ops.iter().map(|o| match o { ClaimOp::Set(cl) => format!("set {:?}", cl.key()), ClaimOp::Remove(k) => format!("remove {:?}", k), ClaimOp::Extend(kv) => format!("extend_claims {:?}", kv.iter().map(|x| x.0.as_str()).collect::<Vec<_>>()) }).collect::<Vec<_>>(), "parsed_equals_model": want}));
             }
         }
         Out::Ok(Value::Object(got)) => {
@@ -299,11 +315,12 @@ fn c14_multi_eval(c: &C14Multi, r: &mut Report) {
     let mut ia: Option<String> = None;
     let mut bi = 0;
     let mut nth = 0;
-    let word: Vec<String> = c.ops.iter().map(|o| match o { GOp::Set(cl) => format!("set({})", cl.key()), GOp::Remove(k) => format!("remove({})", k), GOp::Footer(_) => "footer".into(), GOp::Assertion(_) => "assertion".into(), GOp::Build => "BUILD".into() }).collect();
+    let word: Vec<String> = c.ops.iter().map(|o| match o { GOp::Set(cl) => format!("set({})", cl.key()), GOp::Remove(k) => format!("remove({})", k), GOp::Extend(kv) => format!("extend({})", kv.iter().map(|x| x.0.as_str()).collect::<Vec<_>>().join(",")), GOp::Footer(_) => "footer".into(), GOp::Assertion(_) => "assertion".into(), GOp::Build => "BUILD".into() }).collect();
     for op in &c.ops {
         match op {
             GOp::Set(cl) => model.push(ClaimOp::Set(cl.clone())),
             GOp::Remove(k) => model.push(ClaimOp::Remove(k.clone())),
+            GOp::Extend(kv) => model.push(ClaimOp::Extend(kv.clone())),
             GOp::Footer(f) => footer = Some(f.clone()),
             GOp::Assertion(a) if c.p.has_assertion() => ia = Some(a.clone()),
             GOp::Assertion(_) => {}
@@ -354,6 +371,12 @@ fn random_multi(rng: &mut Rng) -> Vec<GOp> {
                 ops.push(GOp::Set(c));
             }
             4 | 5 if !keys.is_empty() => ops.push(GOp::Remove(rng.pick(&keys).clone())),
+            4 => {
+                let k = custom_key(rng);
+                let d = rng.below(3);
+                ops.push(GOp::Extend(vec![(k.clone(), gens::json_tree(rng, d))]));
+                keys.push(k);
+            }
             6 => ops.push(GOp::Footer(rng.utf8_upto(12))),
             7 => ops.push(GOp::Assertion(rng.utf8_upto(12))),
             _ => ops.push(GOp::Build),
@@ -381,7 +404,7 @@ pub fn replay_c14(case: &Value) -> Report {
     r
 }
 
-pub const RULE_C14: &str = "seeded random histories of 0..12 (every 16th: 0..60) set_claim/remove_claim operations on GenericBuilder (20000 on v4.local, 250-1500 on each other protocol; thorough 2e6 / 1e4-1.5e5) plus a fixed corner catalogue: keys = non-empty Unicode (escapes, NUL, non-BMP, 200-byte keys, near-reserved names, keys equal to a member name inside their own value); values = JSON trees of depth <= 5 (i64/u64 extremes, exact short decimals, empty containers, null), native Rust values through Serialize (structs, tuples, Option, Vec, BTreeMap, enums, char, bytes) and registered claims through their typed constructors; the token is parsed back with a validator-free GenericParser and the whole object compared (serde_json equality) with a model map (last write wins, remove deletes) built by the harness. Plus multi-build histories (1500 on v4.local, 30-150 elsewhere; thorough 4e4): ONE GenericBuilder is driven through 3-17 set/remove/footer/assertion/build steps and EVERY token it emits must equal the model at that point. distinct_nontrivial = distinct (protocol, #ops, #sets, #members, value-shape signature) that built, parsed and compared equal";
+pub const RULE_C14: &str = "seeded random histories of 0..12 (every 16th: 0..60) set_claim/remove_claim/extend_claims operations on GenericBuilder (20000 on v4.local, 250-1500 on each other protocol; thorough 2e6 / 1e4-1.5e5) plus a fixed corner catalogue: keys = non-empty Unicode (escapes, NUL, non-BMP, 200-byte keys, near-reserved names, keys equal to a member name inside their own value); values = JSON trees of depth <= 5 (i64/u64 extremes, exact short decimals, empty containers, null), native Rust values through Serialize (structs, tuples, Option, Vec, BTreeMap, enums, char, bytes) and registered claims through their typed constructors; the token is parsed back with a validator-free GenericParser and the whole object compared (serde_json equality) with a model map (last write wins, remove deletes) built by the harness. Plus multi-build histories (1500 on v4.local, 30-150 elsewhere; thorough 4e4): ONE GenericBuilder is driven through 3-17 set/remove/footer/assertion/build steps and EVERY token it emits must equal the model at that point. distinct_nontrivial = distinct (protocol, #ops, #sets, #members, value-shape signature) that built, parsed and compared equal";
 
 // ==========================================================================================
 // C15
@@ -521,7 +544,7 @@ fn c15_verdict(c: &C15Case, tok_claims: &Map<String, Value>, out: &Out<Value>, r
 }
 
 fn open_c15(c: &C15Case, tok: &str) -> Out<Value> {
-    let cfg = ParserCfg { expected: c.e.clone(), default_parser: c.default_parser, ..Default::default() };
+    let cfg = ParserCfg { expected: c.e.clone(), default_parser: c.default_parser, expected_via_extend: c.class.ends_with("[extend_check_claims]"), ..Default::default() };
     match c.layer {
         Layer::Generic => generic_open(c.p, &c.key, tok, &cfg).0,
         _ => batteries_open(c.p, &c.key, tok, &cfg).0,
@@ -716,6 +739,12 @@ pub fn run_c15(tier: &str, seed: u64) -> Report {
             for (e, class) in &variants {
                 let c = C15Case { p, key: key.clone(), s: s.clone(), e: e.clone(), layer, default_parser: dp, class: class.clone() };
                 c15_eval(&c, r);
+                if layer == Layer::Generic && j % 3 == 0 {
+                    // the same expectations registered through one extend_check_claims(map) call
+                    let c = C15Case { p, key: key.clone(), s: s.clone(), e: e.clone(), layer, default_parser: dp, class: format!("{} [extend_check_claims]", class) };
+                    c15_eval(&c, r);
+                    r.count("expectations registered through extend_check_claims");
+                }
             }
             let c = C15Case { p, key: key.clone(), s: s_null.clone(), e: vec![Claim::Custom("nullish".into(), Value::Null)], layer, default_parser: dp, class: "expected-null-present-null".into() };
             c15_eval(&c, r);
@@ -850,6 +879,7 @@ pub fn run_c15(tier: &str, seed: u64) -> Report {
         }
     }
     total.require("history parses consistent with a fresh parser", 1000);
+    total.require("expectations registered through extend_check_claims", 200);
     total
 }
 
@@ -862,7 +892,7 @@ pub fn replay_c15(case: &Value) -> Report {
     r
 }
 
-pub const RULE_C15: &str = "for seeded random token claim sets S (registered string claims, integers, booleans, nested JSON, strings) the expected sets E = {equal, random subset, superset with one absent claim, one value changed (case / trailing space / NUL suffix / type / off-by-one / fraction / negation / extra element), one key changed by one character, expected value on a claim that is present as null, integer-vs-float spelling (don't-care)} are registered with check_claim on GenericParser, PasetoParser::new() and PasetoParser::default() and the authentic token is parsed; oracle = harness-side comparison of S and E: accept iff no discrepancy; a missing-only discrepancy must be reported as Missing(k) for a missing k; an error must name a failing claim. Plus 500 (thorough 5000) histories: one parser processes 8 tokens in 4 orders and every outcome must equal the fresh-parser outcome. Plus sessions in which the expectation for a key is REPLACED on a live parser between parses (check_claim again with another value). Plus PasetoParser::default().check_claim(exp|nbf) as its own class. Token claim keys include path/pointer look-alikes ('a/b' next to a nested a.b, 'https://example.com/role', '~0', 'a[0]'). distinct_nontrivial = distinct (protocol, parser kind, outcome, expectation class, error variant)";
+pub const RULE_C15: &str = "for seeded random token claim sets S (registered string claims, integers, booleans, nested JSON, strings) the expected sets E = {equal, random subset, superset with one absent claim, one value changed (case / trailing space / NUL suffix / type / off-by-one / fraction / negation / extra element), one key changed by one character, expected value on a claim that is present as null, integer-vs-float spelling (don't-care)} are registered with check_claim (and, on GenericParser, also through one extend_check_claims call) on GenericParser, PasetoParser::new() and PasetoParser::default() and the authentic token is parsed; oracle = harness-side comparison of S and E: accept iff no discrepancy; a missing-only discrepancy must be reported as Missing(k) for a missing k; an error must name a failing claim. Plus 500 (thorough 5000) histories: one parser processes 8 tokens in 4 orders and every outcome must equal the fresh-parser outcome. Plus sessions in which the expectation for a key is REPLACED on a live parser between parses (check_claim again with another value). Plus PasetoParser::default().check_claim(exp|nbf) as its own class. Token claim keys include path/pointer look-alikes ('a/b' next to a nested a.b, 'https://example.com/role', '~0', 'a[0]'). distinct_nontrivial = distinct (protocol, parser kind, outcome, expectation class, error variant)";
 
 // ==========================================================================================
 // C16
@@ -948,7 +978,7 @@ fn c16_eval(c: &C16Case, r: &mut Report, seed: u64) {
     if c.forgery == "wrong-assertion" && !c.p.has_assertion() {
         return;
     }
-    let cfg = ParserCfg { footer, assertion: ia, expected: c.expected.clone(), validators: c.validators.clone(), default_parser: c.default_parser };
+    let cfg = ParserCfg { footer, assertion: ia, expected: c.expected.clone(), validators: c.validators.clone(), default_parser: c.default_parser, expected_via_extend: false };
     let _ = vlog_take();
     let out = match c.layer {
         Layer::Generic => generic_open(c.p, &key, &t, &cfg).0,
@@ -1183,7 +1213,7 @@ pub fn run_c16(tier: &str, seed: u64) -> Report {
             toks.swap(k, j);
         }
         let (layer, dp) = [(Layer::Generic, false), (Layer::Batteries, false), (Layer::Batteries, true)][i % 3];
-        let cfg = ParserCfg { footer: Some("ftr".into()), assertion: ia0.map(|s| s.to_string()), expected: vec![], validators: validators.clone(), default_parser: dp };
+        let cfg = ParserCfg { footer: Some("ftr".into()), assertion: ia0.map(|s| s.to_string()), expected: vec![], validators: validators.clone(), default_parser: dp, expected_via_extend: false };
         let seq: Vec<&str> = toks.iter().map(|t| t.0.as_str()).collect();
         let outs = if layer == Layer::Generic { generic_open_seq(p, &key, &seq, &cfg) } else { batteries_open_seq(p, &key, &seq, &cfg) };
         let tag = format!("{}/{}{}", p.name(), layer.name(), if dp { "-default" } else { "" });
